@@ -1089,6 +1089,11 @@ class Wtp:
             if pre_expand:
                 self.set_template_pre_expand(page.title)
                 expand_stack.append(page)
+            elif page.need_pre_expand:
+                # Marked by an earlier analysis or explicitly by add_page():
+                # templates added or overwritten since then may include it,
+                # so it has to be a propagation source again.
+                expand_stack.append(page)
 
         # XXX consider encoding template bodies here (also need to save related
         # cookies).  This could speed up their expansion, where the first
